@@ -5,6 +5,7 @@ from vf import common, refmodel as rm, seeds, sphere as sp, geo
 PID = 'C04'
 LEVEL = 'exploration'
 R_AUTH = 6371007.2
+DISC = 0.1      # measured on the unchanged tree: at most 0.0115 (cells straddling a seam of the projection)
 
 
 def kseq(r):
@@ -50,6 +51,14 @@ def check_cell(acc, a5, c, r, label):
     if not settled:
         acc.n['not_settled_at_K_cap'] += 1
         allow += 2e-6          # the K sequence did not settle: only a coarser statement can be made
+    # every K-gon is judged too (the extrapolation uses the last two only and would forgive a first ring that is wrong because of what was
+    # called before it): discretisation error <= DISC/K^2 relative, DISC = 10x the largest value seen on the unchanged tree
+    for Kk, a in zip(kseq(r), areas):
+        relk = abs(a / want - 1)
+        acc.maximum('discretisation_err_times_K2', relk * Kk * Kk, [hex(c), Kk])
+        if relk > allow + DISC / (Kk * Kk):
+            acc.violation(k + ':area-at-K', f'ring of {c:#x} (res {r}) with {Kk} segments per edge encloses {a!r} sr, expected {want!r} (rel {relk:.3g}, discretisation allowance {DISC / (Kk * Kk):.3g})', case)
+            return
     rel = abs(area / want - 1)
     acc.maximum('area_rel_err_over_allowance', rel / allow, [hex(c), K])
     acc.maximum(f'area_rel_err_r{r:02d}', rel, hex(c))
@@ -113,8 +122,8 @@ def run(tier, t0):
     for part in common.pmap(_dispatch, tasks, chunksize=1):
         acc.merge(part)
     acc.sample({'cell': hex(rm.encode((5, 2, 1))), 'areas at K=16,64,256': 'Richardson limit A + (A - A_prev)/15', 'expected': 4 * math.pi / rm.num_cells(2)})
-    rule = (f'every cell of resolutions 0..{R}; G1[basic] digit-pattern cells and the cells at 88 special sites (poles, antimeridian, face centres/vertices/edge midpoints) up to resolution 29; '
-            'ring area at K, 4K, 16K(, 64K) segments per edge, Richardson-extrapolated; non-trivial = cells whose converged area met the bound')
+    rule = (f'every cell of resolutions 0..{R}; G1[basic] digit-pattern cells and the cells at the special sites (poles, antimeridian, the meridian where the raw longitude of the library wraps, face centres/vertices/edge midpoints, face-edge points) up to resolution 29; '
+            'ring area at K, 4K, 16K(, 64K) segments per edge, Richardson-extrapolated, and every single K-gon within the allowance + 0.1/K^2 (discretisation); non-trivial = cells whose converged area met the bound')
     return common.finish(PID, LEVEL, tier, acc, t0, rule, [
         'ring vertices converted with the closed-form WGS84 authalic latitude (not the library series); area by the signed spherical-excess formula in difference form',
         'allowance 1e-6 + (6.5e-15 rad)/width(r): the second term is the numerical accuracy of double-precision boundary coordinates (statement: "to within the numerical accuracy of the boundary"); measured noise on the unchanged tree is 1.6e-15/width (coverage.maxima.area_rel_err_r*), i.e. the allowance leaves 5x head-room at resolution 29',
